@@ -1664,6 +1664,8 @@ class LangServer:
                 config_dict = json5.load(jsonfile)
                 if not isinstance(config_dict, dict):
                     raise ValueError("the top-level value must be an object")
+                # Nothing is applied unless every value has the type of its option
+                self._check_config_types(config_dict)
 
                 # Include and Exclude directories
                 self._load_config_file_dirs(config_dict)
@@ -1689,6 +1691,65 @@ class LangServer:
         except ValueError as e:
             msg = f'Error: "{e}" while reading "{self.config}" Configuration file'
             self.post_message(msg)
+
+    @staticmethod
+    def _check_config_types(config_dict: dict) -> None:
+        """Raise ValueError for an option whose value has the wrong JSON type"""
+
+        def is_int(val):
+            return isinstance(val, int) and not isinstance(val, bool)
+
+        def is_str_list(val):
+            return isinstance(val, list) and all(isinstance(v, str) for v in val)
+
+        str_lists = (
+            "excl_paths",
+            "source_dirs",
+            "incl_suffixes",
+            "excl_suffixes",
+            "include_dirs",
+            "pp_suffixes",
+        )
+        integers = (
+            "nthreads",
+            "recursion_limit",
+            "max_line_length",
+            "max_comment_line_length",
+        )
+        booleans = (
+            "notify_init",
+            "incremental_sync",
+            "sort_keywords",
+            "disable_autoupdate",
+            "autocomplete_no_prefix",
+            "autocomplete_no_snippets",
+            "autocomplete_name_only",
+            "lowercase_intrinsics",
+            "use_signature_help",
+            "hover_signature",
+            "disable_diagnostics",
+            "symbol_skip_mem",
+            "enable_code_actions",
+            "debug_log",
+        )
+        for key, val in config_dict.items():
+            if key in str_lists:
+                valid, expected = is_str_list(val), "a list of strings"
+            elif key in integers:
+                valid, expected = is_int(val), "an integer"
+                if key == "nthreads" and valid and val < 1:
+                    valid, expected = False, "a positive integer"
+            elif key in booleans:
+                valid, expected = isinstance(val, bool), "true or false"
+            elif key == "hover_language":
+                valid, expected = isinstance(val, str), "a string"
+            elif key == "pp_defs":
+                valid = isinstance(val, dict) or is_str_list(val)
+                expected = "an object or a list of strings"
+            else:
+                continue
+            if not valid:
+                raise ValueError(f'option "{key}" must be {expected}')
 
     def _load_config_file_dirs(self, config_dict: dict) -> None:
         self.excl_paths = set(config_dict.get("excl_paths", self.excl_paths))
